@@ -543,6 +543,17 @@ class Canonicaliser:
             fn.body = self.block(fn.body, modname, cls, fn)
             self.expr_inline(fn, modname, cls)
             self.simplify_function(fn, modname, cls)
+            # constants passed to an inlined helper decide its tests; what that uncovers (a lambda applied, a helper call
+            # that was an argument) is read once more
+            from .astutil import fold_constant_tests, fold_static
+            for _round in range(2):
+                if not fold_constant_tests(fn):
+                    break
+                fold_static(fn)
+                self.stats["constant_tests_folded"] = self.stats.get("constant_tests_folded", 0) + 1
+                fn.body = self.block(fn.body, modname, cls, fn)
+                self.expr_inline(fn, modname, cls)
+                self.simplify_function(fn, modname, cls)
         finally:
             self.busy.discard(id(fn))
             self.done.add(id(fn))
